@@ -36,6 +36,52 @@ def surely_true(eng, v):
     return not eng.check(v == 0)
 
 
+CONTENT_CLASS = {'previous': 'previous', '$3': 'three', 'stdout': 'stdout', 'script-wrote-$1': 'direct'}
+
+
+def content_class(w, name):
+    st = w.fs_stamp(tuple(name))
+    if st is None:
+        return 'missing'
+    if tuple(st) == tuple(S_DIR):
+        return 'dir'
+    return CONTENT_CLASS.get(w.content.get(tuple(name)), 'other')
+
+
+def concretize_row(m, row):
+    out = {}
+    for k, v in row.items():
+        if k in ('rowid', 'name'):
+            continue
+        if type(v) is LazyVal:
+            v = v.val if v.forced else None
+        if v is None:
+            out[k] = None
+        elif isinstance(v, tuple):
+            out[k] = bytes(v).decode('latin-1')
+        elif isinstance(v, (bool, int)):
+            out[k] = v
+        else:
+            x = m.eval(v, model_completion=True)
+            out[k] = z3.is_true(x) if z3.is_bool(x) else (x.as_long() if z3.is_int_value(x) else x.as_signed_long())
+    return out
+
+
+def row_class(eng, m, w, R):
+    """the target's row as replay/state_replay.rs::dump_rows prints it: gen,ovr,checked,changed,failed,stamp class,csum class"""
+    r = concretize_row(m, {k: w.cell(T_ID, k) for k in dbmodel.FILE_COLS})
+
+    def b(v):
+        return 'N' if v is None else ('1' if v else '0')
+
+    def i(v):
+        return 'N' if v is None else str(int(v))
+    stp = r['stamp']
+    return '%d:%s,%s,%s,%s,%s,%s,%s' % (T_ID, b(r['is_generated']), b(r['is_override']), i(r['checked_runid']), i(r['changed_runid']),
+                                        i(r['failed_runid']), 'N' if stp is None else ('M' if stp == '0' else 'S'),
+                                        'N' if not r['csum'] else 'C')
+
+
 def t_path(eng, name=T_NAME, absolute=True):
     b = (BASE + b'/' + name) if absolute else name
     return Struct('RedoPath', [Bytes(list(b), 'str')])
@@ -119,10 +165,29 @@ def record_new_state_facts(chk, pid):
         def cand(role, what, extra=None):
             m = eng.model(extra)
             wit2 = dict(wit)
+            c = {'role': 'record_new_state:' + role, 'kind': 'record', 'what': 'record_new_state: ' + what, 'witness': wit2,
+                 'prio': (2 if 'rename-failed' in wit['faults'] else (1 if wit['faults'] else 0))}
             if m is not None:
-                wit2['rv'] = m.eval(rv0, model_completion=True).as_signed_long()
-                wit2['model'] = depscheck.model_of(eng, w, R, [T_ID], extra)
-            return {'role': 'record_new_state:' + role, 'kind': 'buildjob', 'what': 'record_new_state: ' + what, 'witness': wit2}
+                rvv = m.eval(rv0, model_completion=True).as_signed_long()
+                wit2['rv'] = rvv
+                # the state BEFORE the job, as a replay line for replay/builder_replay.rs, and what the model says comes out
+                mm = depscheck.model_of(eng, w, R, [T_ID], extra)
+                mm['files'] = {T_ID: dict(mm['files'][T_ID], **concretize_row(m, st['row0']))}
+                mm['fs'] = {T_NAME.decode(): None if st['before'] is None else bytes(st['before']).decode()}
+                mm['deps'] = []
+                wit2['model'] = mm
+                fault = 'create' if 'create-failed' in wit['faults'] else ('rename' if 'rename-failed' in wit['faults'] else 'none')
+                wit2['line'] = '%s RV=%d OUT=%d HAS3=%d TOUCH=%d FAULT=%s' % (depscheck.to_dbline(mm, T_ID, 'record'), rvv, st['out_size'],
+                                                                            st['has3'], st['touched'], fault)
+                if outcome == 'ok':
+                    retv = val if isinstance(val, int) else m.eval(val, model_completion=True).as_signed_long()
+                    c['predict'] = {'RET': str(retv), 'TGT': content_class(w, T_NAME), 'TMP': '1' if w.fs_stamp(tuple(TMP_NAME)) is not None else '0',
+                                    'row': row_class(eng, m, w, R)}
+                    if role == 'in-place-write':
+                        c['predict']['INO'] = 'same'
+                else:
+                    c['predict'] = {'RET': 'PANIC'}
+            return c
 
         if outcome == 'panic':
             return cand('panic', 'aborts (%s) with %r' % (val.msg, wit))
@@ -369,6 +434,23 @@ def make_replay(chk, rep, scn):
             gone = 'out=MISSING' in out
             return (failed and gone), ('real binaries on a full tmpfs: redo fails (%s) and the previously built target is %s' % (
                 [l for l in out.split('\n') if l.startswith('rc=')], 'deleted' if gone else 'still there'))
+        if c.get('kind') == 'record' and w.get('line') and c.get('predict'):
+            if ' FAULT=rename' in w['line']:
+                return False, 'a failing rename cannot be provoked natively'
+            payload, raw, rc = rep.run('builder', 'record_batch', [w['line']], timeout=900)
+            if len(payload) != 1:
+                return False, 'native run failed (rc=%s): %s' % (rc, raw[-600:])
+            got = dict(x.split('=', 1) for x in payload[0].split(' ')[1:] if '=' in x)
+            c['native'] = payload[0]
+            pr = c['predict']
+            if pr['RET'] == 'PANIC':
+                return got.get('RET', '').startswith('PANIC'), 'native: %s' % payload[0][:300]
+            same = all(got.get(k) == v for k, v in pr.items() if k in ('RET', 'TGT', 'TMP', 'INO'))
+            if 'row-' in role or role.endswith('zap-deps2'):
+                rows = dict(x.split(':', 1) for x in got.get('ROWS', '').split(';') if ':' in x)
+                want = pr['row'].split(':', 1)
+                same = same and rows.get(want[0]) == want[1]
+            return same, 'native record_new_state: %s; the model predicted %r' % (payload[0][:300], pr)
         return False, 'no native replay driver for %s / %s' % (c.get('kind'), role)
     return replay
 
